@@ -1358,6 +1358,23 @@ func (e *Engine) bytesEq(st *State, a, b Slice) *Term {
 		if n.C > 4096 {
 			panic(abortSignal{"byte comparison of very long concrete strings"})
 		}
+		if n.C == 0 {
+			return lenEq
+		}
+		if n.C <= 128 {
+			// one wide equality; adjacent extracts of hash outputs merge back into the whole term
+			var x, y *Term
+			for i := uint64(0); i < n.C; i++ {
+				xa := Select(aa, BVAdd(a.Off, U64(i)))
+				ya := Select(ba, BVAdd(b.Off, U64(i)))
+				if x == nil {
+					x, y = xa, ya
+				} else {
+					x, y = Concat(x, xa), Concat(y, ya)
+				}
+			}
+			return And(lenEq, Eq(x, y))
+		}
 		cs := []*Term{lenEq}
 		for i := uint64(0); i < n.C; i++ {
 			cs = append(cs, Eq(Select(aa, BVAdd(a.Off, U64(i))), Select(ba, BVAdd(b.Off, U64(i)))))
@@ -1485,6 +1502,9 @@ func (e *Engine) typeAssert(st *State, fr *Frame, x *ssa.TypeAssert) Value {
 }
 
 func (e *Engine) implementsByName(t types.Type, it *types.Interface) bool {
+	if isModelType(t) {
+		return true
+	}
 	ms := e.prog.MethodSets.MethodSet(t)
 	for i := 0; i < it.NumMethods(); i++ {
 		found := false
@@ -1499,6 +1519,16 @@ func (e *Engine) implementsByName(t types.Type, it *types.Interface) bool {
 		}
 	}
 	return true
+}
+
+func isModelType(t types.Type) bool {
+	if p, ok := t.(*types.Pointer); ok {
+		t = p.Elem()
+	}
+	if n, ok := t.(*types.Named); ok && n.Obj().Pkg() != nil {
+		return strings.HasPrefix(n.Obj().Pkg().Path(), "hmod/")
+	}
+	return false
 }
 
 func (e *Engine) selectOp(st *State, fr *Frame, x *ssa.Select) Value {
